@@ -129,6 +129,16 @@ func (c *AnswerCache) Save() error {
 	}
 	c.mu.Lock()
 	defer c.mu.Unlock()
+	// merge what another run may have saved in the meantime
+	if f, err := os.Open(c.path); err == nil {
+		sc := bufio.NewScanner(f)
+		for sc.Scan() {
+			if l := sc.Text(); len(l) == 64 {
+				c.have[l] = true
+			}
+		}
+		f.Close()
+	}
 	keys := make([]string, 0, len(c.have))
 	for k := range c.have {
 		keys = append(keys, k)
